@@ -76,7 +76,9 @@ TCmd == /\ IsEv("Cmd")
                            /\ PrintT(<<"TRACE_DRIFT", l>>)
 
 TEnd == /\ IsEv("End")
-        /\ (void \/ P!Live(S) = 0)
+        \* nothing is left, except what can never leave (a holder that keeps itself alive while it waits
+        \* for an answer nobody in this environment can give, and what is behind it)
+        /\ (void \/ P!Live(S) <= P!Stuck(S))
         /\ UNCHANGED <<S, void, drift>>
 
 TInit == l = 1 /\ S = P!Empty /\ void = FALSE /\ drift = 0
